@@ -1,63 +1,39 @@
+(* Extraction of the model, instantiated at the configuration read from the source (gen/Consts.v).
+   Directives: ExtrOcamlBasic only. *)
 From Coq Require Import List NArith Bool Extraction ExtrOcamlBasic.
 From Coq.Strings Require Import Byte.
-From PM Require Import Base Text Model Tables Consts.
+From PM Require Import Base Text Model Order C14 Quals5 Exec Tables Consts.
 Import ListNotations.
 Local Open Scope N_scope.
 
-Section X.
-Let cfg := src_cfg.
-(* builder: new(type,name).with_namespace.with_version.with_subpath.with_qualifier* .build *)
-Fixpoint apply_quals (q : quals) (kvs : list (bytes * bytes)) : result parse_error quals :=
-  match kvs with [] => Ok q | (k, v) :: t => match q_insert cfg q k v with Ok q' => apply_quals q' t | Err e => Err e end end.
-Definition mkparts ns name ver sub q := {| p_ns := ns; p_name := name; p_ver := ver; p_quals := q; p_sub := sub |}.
-Definition build_generic (borrowed : bool) (ty name ns ver sub : bytes) (kvs : list (bytes * bytes)) :=
-  match apply_quals [] kvs with
-  | Err e => None
-  | Ok q => Some (build cfg (if borrowed then {| sh_from_str := fun s => Ok s; sh_finish := cow_borrowed_finish cfg; sh_type := fun t => t; sh_inj := fun e => e |} else string_shape cfg) ty (mkparts ns name ver sub q))
-  end.
-Definition build_typed (t : ptype) (name ns ver sub : bytes) (kvs : list (bytes * bytes)) :=
-  match apply_quals [] kvs with
-  | Err e => None
-  | Ok q => Some (build cfg (ptype_shape cfg) t (mkparts ns name ver sub q))
-  end.
-(* Qualifiers ops *)
-Inductive qop := QInsert (k v : bytes) | QRemove (k : bytes) | QGet (k : bytes) | QClear | QRetainNonEmpty | QEntryOrInsert (k v : bytes).
-Inductive qout := OUnit | OErr | OVal (o : option bytes).
-Definition qstep (q : quals) (o : qop) : quals * qout :=
-  match o with
-  | QInsert k v => match q_insert cfg q k v with Ok q' => (q', OUnit) | Err _ => (q, OErr) end
-  | QRemove k => let '(q', r) := q_remove cfg q k in (q', OVal r)
-  | QGet k => (q, OVal (q_get cfg q k))
-  | QClear => ([], OUnit)
-  | QRetainNonEmpty => (q_retain (fun _ v => negb (is_empty v)) q, OUnit)
-  | QEntryOrInsert k v =>
-      match check_key cfg k with Err _ => (q, OErr) | Ok m =>
-        match search cfg q m with
-        | Found i => (q, OVal (option_map snd (nth_error q i)))
-        | NotFound i => (insert_at q i (into_key m, v), OVal (Some v)) end end
-  end.
-(* Checksum ops *)
-Inductive cop := CInsert (alg bs : bytes) | CInsertRaw (alg raw : bytes) | CRemove (alg : bytes).
-Definition cstep (m : cmap) (o : cop) : cmap :=
-  match o with
-  | CInsert a bs => cs_insert_raw cfg m a (hex_encode bs)
-  | CInsertRaw a r => cs_insert_raw cfg m a r
-  | CRemove a => cm_remove m a
-  end.
-Definition cs_text (m : cmap) := (cs_cap_panics cfg m, cs_to_text m).
-Definition cs_parse (v : bytes) := cs_try_from cfg v.
-Definition cs_sorted (m : cmap) := cs_sort m.
-Definition ptfs (s : bytes) := pt_from_str cfg s.
-Definition comb (t : ptype) (s : bytes) :=
-  let '(ns, name) := combined_split t s in
-  let p := mkparts (match ns with Some n => n | None => [] end) name [] [] [] in
-  (p, match build cfg (ptype_shape cfg) t p with Ok (t', p') => Some (combined_name t' p') | Err _ => None end).
-End X.
-Definition hexdec := hex_decode.
-Definition parse_generic (s : bytes) := parse src_cfg (string_shape src_cfg) s.
-Definition parse_typed (s : bytes) := parse src_cfg (ptype_shape src_cfg) s.
-Definition format_generic (t : bytes) (p : parts) := format src_cfg (string_shape src_cfg) t p.
-Definition format_typed (t : ptype) (p : parts) := format src_cfg (ptype_shape src_cfg) t p.
-Definition pt_name_x := pt_name.
-Extraction "model.ml" parse_generic parse_typed format_generic format_typed pt_name_x Byte.to_N
-  build_generic build_typed qstep cstep cs_text cs_parse cs_sorted ptfs comb hexdec all_ptypes.
+Definition cfg := src_cfg.
+Definition shG := string_shape cfg.
+Definition shB := cow_shape cfg.
+Definition shT := ptype_shape cfg.
+
+Definition x_parse_g (s : bytes) := triple cfg shG shG (make_parse cfg shG s).
+Definition x_parse_t (s : bytes) := triple cfg shT shT (make_parse cfg shT s).
+Definition x_build_g (t name0 : bytes) (ops : list (@xbop bytes)) := triple cfg shG shG (make_build cfg shG t name0 ops).
+Definition x_build_b (t name0 : bytes) (ops : list (@xbop bytes)) := triple cfg shB shG (make_build cfg shB t name0 ops).
+Definition x_build_t (t : ptype) (name0 : bytes) (ops : list (@xbop ptype)) := triple cfg shT shT (make_build cfg shT t name0 ops).
+Definition x_cmp_g := @cmp_made bytes parse_error cmp_g.
+Definition x_cmp_t := @cmp_made ptype package_error cmp_t.
+Definition x_qrun (ops : list qxop) := qxrun cfg [] ops.
+Definition x_from_iter (items : list (bytes * bytes)) := Quals5.q_try_from_iter cfg items [].
+Definition x_cs_ops (ops : list cop) := cs_show cfg (crun cfg ops).
+Definition x_cs_text (v : bytes) := cs_parse_show cfg v.
+Definition x_pt_from_str (s : bytes) := pt_from_str cfg s.
+Definition x_comb := comb_case cfg.
+Definition x_fam_parse := fam_parse cfg.
+Definition x_fam_build := fam_build cfg.
+Definition x_fam_canon c r hks (t : bytes) (p : parts) := canon_of cfg (fam_shape cfg c r hks) t p.
+Definition x_format_g (t : bytes) (p : parts) := format cfg shG t p.
+Definition x_format_t (t : ptype) (p : parts) := format cfg shT t p.
+Definition x_pt_name := pt_name.
+Definition x_all_ptypes := all_ptypes.
+Definition x_byte_to_N := Byte.to_N.
+(* the skeleton-only view used by the C07 correspondence: namespace and subpath of a string *)
+Definition x_valid_type (s : bytes) := valid_type cfg s.
+
+Extraction "model.ml" x_parse_g x_parse_t x_build_g x_build_b x_build_t x_cmp_g x_cmp_t x_qrun x_from_iter
+  x_cs_ops x_cs_text x_pt_from_str x_comb x_fam_parse x_fam_build x_fam_canon x_format_g x_format_t x_pt_name x_all_ptypes x_byte_to_N x_valid_type.
